@@ -3,6 +3,8 @@ import AranyaV.Props.C11
 import AranyaV.Props.C03
 import AranyaV.Proofs.StoreGraph
 import AranyaV.Proofs.ConvBfs
+import AranyaV.Proofs.StoreGraphBuild
+import AranyaV.Proofs.ConvBfsCounts
 /-!
 # C03 (part b) — the recorded-LCA walk returns a dominator (`lca_dominates`)
 
@@ -37,6 +39,15 @@ when it was written; `last_common_ancestor`: the N-way fold).
                          real same-segment test**; so `implBraid … = liftRes (refBraid …)` holds with the
                          LCA the code computes.
 
+* `abs_graphOf` / `graphOf_wf` / `implBraid_eq_ref_built` — such an abstraction always exists: `graphOf s attr`
+                         lists the command locations by ascending max cut (id = position, parents =
+                         positions of the store parents, any priority assignment `attr`); it is a
+                         well-formed spec graph abstracting the store (merge segments must have two
+                         different parents).  So for every store built by writes, every priority
+                         assignment and every antichain of ≥ 2 valid heads, the mechanism with the
+                         computed LCA, the real cut-off and the real same-segment test returns the
+                         reference braid of the store's command graph — no hypothesis left on the LCA.
+
 The BFS half of `ConvergenceMap.count_exact` (`Model.ConvBfs`: `ConvergenceMap::new` + `advance_to`
 on C21's queue model, `push_duplicate` / `peek` / `pop_duplicates`):
 * `convBfs_count_exact` — after `advance_to(target)` the popped locations are *exactly* the locations
@@ -47,9 +58,14 @@ on C21's queue model, `push_duplicate` / `peek` / `pop_duplicates`):
                           parents of region locations above the cut — all of which have been popped
                           before it); an entry is recorded exactly for those above the cut with count ≥ 2;
 * `convBfs_total`       — the BFS never takes an error branch and `allLocs.length + 1` iterations suffice.
-(The block store receiving the entries is `Model.ConvMap`, Props/C02.)  Not closed: the identification
-of these arrival counts with `Model.BraidMech.initCounts` of an abstracting spec graph
-(`initCounts_eq_arrivals`), which needs duplicate-free parent lists and head sets.
+* `initCounts_eq_arrivals` — after the complete BFS the recorded entries are *exactly* the convergence
+                          map the mechanism model starts from: `(x, k)` is an entry iff
+                          `Model.BraidMech.initCounts (graphOf s attr) region (max_cut ≤ cut) (id of x) =
+                          some k` (a command above the cut with `k ≥ 2` children in the braided
+                          region), for a duplicate-free antichain of heads.
+(The block store receiving the entries is `Model.ConvMap`, Props/C02.)  Together: real LCA walk →
+dominator; real BFS → the model's counts; block store → abstract map; count-down mechanism → reference
+braid.
 -/
 namespace AranyaV.Segments
 open AranyaV.Queue (Loc)
@@ -245,6 +261,23 @@ theorem implBraid_eq_ref_store {s : Store} {g : Graph} {φ : Loc → Nat} {ψ : 
   obtain ⟨hcv, hsp⟩ := lastCommonAncestor_spines hwf hmd hv hC
   exact AranyaV.Braid.implBraid_eq_ref hg hh (mechHyp_of_spines hg ha hwf.priors h2 hv hcv hsp)
 
+/-- **`implBraid_eq_ref_built`.** No hypothesis on the LCA: on every store built by writes, for the
+command graph `graphOf s attr` of the store (any priorities), any antichain of at least two valid
+heads and the location `C` that `last_common_ancestor` computes, the mechanism — cut-off
+`max_cut ≤ C.max_cut`, same-segment shortcut, convergence count-down, `lone` — returns the start
+and evaluation order of the reference braid, and fails exactly when it fails. -/
+theorem implBraid_eq_ref_built {s : Store} (hb : Built s) (hmd : MergeDistinct s)
+    (attr : Loc → AranyaV.Gen.Priority) {hs : List Loc} {C : Loc}
+    (h2 : 2 ≤ hs.length) (hnd : hs.Nodup) (hv : ∀ h ∈ hs, s.valid h = true)
+    (hanti : ∀ a ∈ hs, ∀ b ∈ hs, a ≠ b → ¬ AncS s a b)
+    (hC : lastCommonAncestor s hs = .ok C) :
+    AranyaV.Braid.implBraid (graphOf s attr) (hs.map (locId s)) (belowOf (idLoc s) C) (sameSegOf (idLoc s)) =
+      AranyaV.Braid.liftRes (Spec.refBraid (graphOf s attr) (hs.map (locId s))) := by
+  obtain ⟨hwf, hmdom⟩ := built_invariants hb
+  have hne : hs ≠ [] := by intro e; rw [e] at h2; simp at h2
+  exact implBraid_eq_ref_store (graphOf_wf hwf.priors hmd attr) (abs_graphOf hwf.priors attr) hwf hmdom h2 hv
+    (heads_graphOf hwf.priors hmd attr hne hnd hv hanti) hC
+
 /-! ## the BFS of the convergence map -/
 
 /-- **`convBfs_count_exact`.** -/
@@ -263,6 +296,17 @@ theorem convBfs_total {s : Store} (hwf : WF s) (cut target : Nat) {heads : List 
     (hv : ∀ h ∈ heads, s.valid h = true) :
     ∃ b, advanceTo s cut target (s.allLocs.length + 1) (Bfs.init heads) = .ok b :=
   advanceTo_total hwf.priors _ _ (init_J s cut heads hv) (by simp [Bfs.init])
+
+/-- **`initCounts_eq_arrivals`.** The entries recorded by the complete BFS are the initial
+convergence map of the mechanism model (`Model.BraidMech.initCounts`) for the store's command graph. -/
+theorem initCounts_eq_arrivals {s : Store} (hwf : WF s) (hmd : MergeDistinct s)
+    (attr : Loc → AranyaV.Gen.Priority) {hs : List Loc} (hnd : hs.Nodup)
+    (hv : ∀ h ∈ hs, s.valid h = true) (hanti : ∀ a ∈ hs, ∀ b ∈ hs, a ≠ b → ¬ AncS s a b)
+    (C : Loc) {n : Nat} {b : Bfs} (hrun : advanceTo s C.mc 0 n (Bfs.init hs) = .ok b)
+    {x : Loc} (hx : s.valid x = true) (k : Nat) :
+    AranyaV.Braid.initCounts (graphOf s attr) (Spec.ancSelfAll (graphOf s attr) (hs.map (locId s)))
+        (belowOf (idLoc s) C) (locId s x) = some k ↔ (x, k) ∈ b.entries :=
+  initCounts_eq_entries hwf hmd attr hnd hv hanti C hrun hx k
 
 /-! ## non-vacuity: a store with a nested merge, built by `write`s
 
@@ -357,5 +401,32 @@ convergence point above the cut is `2:3` (two arrivals: from `3:5` directly and 
 example : (advanceTo b5 2 0 (b5.allLocs.length + 1) (Bfs.init [⟨5, 3⟩, ⟨5, 4⟩])).toOption.map
       (fun b => (b.entries, b.popped.reverse)) =
     some ([(⟨3, 2⟩, 2)], [⟨5, 4⟩, ⟨5, 3⟩, ⟨4, 4⟩, ⟨4, 1⟩, ⟨3, 2⟩, ⟨3, 1⟩, ⟨2, 0⟩]) := by rfl
+
+def mdCheck (s : Store) : Bool :=
+  s.segs.all (fun g => match g.prior with
+    | .merge l r => decide (l ≠ r)
+    | _ => true)
+
+theorem mergeDistinct_of_check {s : Store} (h : mdCheck s = true) : MergeDistinct s := by
+  intro i g hg l r hpr
+  unfold mdCheck at h
+  rw [List.all_eq_true] at h
+  have := h g (seg?_mem hg)
+  rw [hpr] at this
+  simpa using this
+
+/-- `implBraid_eq_ref_built` applies to `b5` with the generic abstraction `graphOf` (every command
+`Basic 0`, merges `Merge`), heads `3:5`, `4:5` -/
+example : ∃ C, lastCommonAncestor b5 [⟨5, 3⟩, ⟨5, 4⟩] = .ok C ∧
+    AranyaV.Braid.implBraid (graphOf b5 (fun _ => .basic 0)) ([⟨5, 3⟩, ⟨5, 4⟩].map (locId b5))
+      (belowOf (idLoc b5) C) (sameSegOf (idLoc b5)) =
+    AranyaV.Braid.liftRes (Spec.refBraid (graphOf b5 (fun _ => .basic 0)) ([⟨5, 3⟩, ⟨5, 4⟩].map (locId b5))) := by
+  refine ⟨⟨2, 0⟩, by rfl, ?_⟩
+  refine implBraid_eq_ref_built b5_built (mergeDistinct_of_check (by decide)) _ (by decide) (by decide)
+    (by decide) ?_ (by rfl)
+  intro a ha b hb hab
+  rw [← ancSB_iff b5_priors]
+  revert a b
+  decide
 
 end AranyaV.Segments
